@@ -92,6 +92,71 @@ func (c *Ctx) applierSDCall(rule, typ string, f *ssa.Function, opPath string) *t
 	return ok[0]
 }
 
+// revealValueRules (C02.G3, shared with C04: the reveal value the parser reports is the hash of the key the operation
+// was signed with only because the parser checks it — in batch mode too): parser, both batch modes: success =>
+// IsValidModelMultihash(sd.Key, schema.RevealValue). Returns the parse functions.
+func (c *Ctx) revealValueRules() map[string]*ssa.Function {
+	isValidMH := c.Fn("hashing", "IsValidModelMultihash")
+	pf := c.parseFuncs()
+	opModel := c.NamedType(pModel, "Operation")
+	for _, typ := range []string{"update", "recover", "deactivate"} {
+		f := pf[typ]
+		if f == nil {
+			c.Unresolved("C02.G3", "Parse"+typ+"Operation")
+			continue
+		}
+		c.Analysed(f)
+		// schema := first call taking the request parameter and returning a *model.<X>Request
+		var schemaCall *ssa.Call
+		for _, cl := range findCalls(f, func(cl *ssa.Call) bool {
+			a := declArgs(cl)
+			return len(a) == 1 && c.Path(a[0], nil) == "$1" && strings.Contains(typeShort(cl.Type()), "Request")
+		}) {
+			schemaCall = cl
+			break
+		}
+		if schemaCall == nil {
+			c.Check("C02.G3", "parse-"+typ+":schema", false, f.Pos(), "could not find the request-decoding call on the request parameter")
+			continue
+		}
+		SC := c.Path(schemaCall, nil) + "#0"
+		var sdCall *ssa.Call
+		for _, cl := range callsNamed(f, parseSDMethod[typ]) {
+			a := declArgs(cl)
+			if len(a) == 1 && c.Path(a[0], nil) == SC+".SignedData" {
+				sdCall = cl
+			}
+		}
+		if sdCall == nil {
+			c.Check("C02.G3", "parse-"+typ+":signed-data", false, f.Pos(), "no "+parseSDMethod[typ]+"(schema.SignedData) call")
+			continue
+		}
+		SD := c.Path(sdCall, nil) + "#0"
+		for _, batch := range []string{"true", "false"} {
+			env := Env{f.Params[2]: batch}
+			chk := callTo("IsValidModelMultihash(signedData."+sdKeyField[typ]+", schema.RevealValue)", isValidMH, pathIs(SD+"."+sdKeyField[typ]), pathIs(SC+".RevealValue"))
+			c.CheckGuard("C02.G3", "parse-"+typ+":reveal-check|batch="+batch, f, env, chk)
+		}
+		// returned model fields come from the same schema
+		if opModel != nil {
+			for _, a := range allocsOf(f, opModel) {
+				ft := c.fieldTable(a, nil)
+				want := map[string]string{"SignedData": SC + ".SignedData", "RevealValue": SC + ".RevealValue", "UniqueSuffix": SC + ".DidSuffix", "OperationRequest": "$1"}
+				if typ != "deactivate" {
+					want["Delta"] = SC + ".Delta"
+				}
+				for fld, w := range want {
+					got := ft[fld]
+					c.Check("C02.G3", "parse-"+typ+":model."+fld, len(got) == 1 && got[0] == w, a.Pos(), fmt.Sprintf("returned operation model field %s = %v (expected %s)", fld, got, w))
+				}
+			}
+		}
+	}
+	c.Min("C02.G3", 6+14)
+
+	return pf
+}
+
 func runC02(c *Ctx) {
 	af := c.applyFuncs("C02.G1")
 	verifyJWS := c.Fn("jwsutil", "VerifyJWS")
@@ -225,63 +290,7 @@ func runC02(c *Ctx) {
 	}
 	c.Min("C02.G2", 8)
 
-	// ---- G3: parser, both batch modes: success => IsValidModelMultihash(sd.Key, schema.RevealValue)
-	pf := c.parseFuncs()
-	opModel := c.NamedType(pModel, "Operation")
-	for _, typ := range []string{"update", "recover", "deactivate"} {
-		f := pf[typ]
-		if f == nil {
-			c.Unresolved("C02.G3", "Parse"+typ+"Operation")
-			continue
-		}
-		c.Analysed(f)
-		// schema := first call taking the request parameter and returning a *model.<X>Request
-		var schemaCall *ssa.Call
-		for _, cl := range findCalls(f, func(cl *ssa.Call) bool {
-			a := declArgs(cl)
-			return len(a) == 1 && c.Path(a[0], nil) == "$1" && strings.Contains(typeShort(cl.Type()), "Request")
-		}) {
-			schemaCall = cl
-			break
-		}
-		if schemaCall == nil {
-			c.Check("C02.G3", "parse-"+typ+":schema", false, f.Pos(), "could not find the request-decoding call on the request parameter")
-			continue
-		}
-		SC := c.Path(schemaCall, nil) + "#0"
-		var sdCall *ssa.Call
-		for _, cl := range callsNamed(f, parseSDMethod[typ]) {
-			a := declArgs(cl)
-			if len(a) == 1 && c.Path(a[0], nil) == SC+".SignedData" {
-				sdCall = cl
-			}
-		}
-		if sdCall == nil {
-			c.Check("C02.G3", "parse-"+typ+":signed-data", false, f.Pos(), "no "+parseSDMethod[typ]+"(schema.SignedData) call")
-			continue
-		}
-		SD := c.Path(sdCall, nil) + "#0"
-		for _, batch := range []string{"true", "false"} {
-			env := Env{f.Params[2]: batch}
-			chk := callTo("IsValidModelMultihash(signedData."+sdKeyField[typ]+", schema.RevealValue)", isValidMH, pathIs(SD+"."+sdKeyField[typ]), pathIs(SC+".RevealValue"))
-			c.CheckGuard("C02.G3", "parse-"+typ+":reveal-check|batch="+batch, f, env, chk)
-		}
-		// returned model fields come from the same schema
-		if opModel != nil {
-			for _, a := range allocsOf(f, opModel) {
-				ft := c.fieldTable(a, nil)
-				want := map[string]string{"SignedData": SC + ".SignedData", "RevealValue": SC + ".RevealValue", "UniqueSuffix": SC + ".DidSuffix", "OperationRequest": "$1"}
-				if typ != "deactivate" {
-					want["Delta"] = SC + ".Delta"
-				}
-				for fld, w := range want {
-					got := ft[fld]
-					c.Check("C02.G3", "parse-"+typ+":model."+fld, len(got) == 1 && got[0] == w, a.Pos(), fmt.Sprintf("returned operation model field %s = %v (expected %s)", fld, got, w))
-				}
-			}
-		}
-	}
-	c.Min("C02.G3", 6+14)
+	pf := c.revealValueRules()
 
 	c.protectedHeaderRules()
 
